@@ -69,7 +69,7 @@ def check_mixed_units(case):
 
 
 def parts(tier):
-    n = 1200 if tier == "quick" else 8000
+    n = 2500 if tier == "quick" else 12000
     return [
         core.Part("documents", "sampled", lambda: gen.cases(decode, 1024), budget=n),
         core.Part("mixed-units", "exhaustive", mixed_unit_cases, check=check_mixed_units),
